@@ -1763,3 +1763,44 @@ mut2(
     [{"file": "cdd/shared/cst_utils.py", "old": "    for statement in scanned:\n        cst_parse_one_node(statement, state=state)\n", "new": "    for statement in scanned:\n        if not statement.strip():\n            continue\n        cst_parse_one_node(statement, state=state)\n"}],
     base="C09_1",
 )
+mut2(
+    "c10-import-initialiser-then-pair-differs-from-owner",
+    "C10",
+    "C10.crossmod",
+    [{"file": "cdd/compound/openapi/utils/emit_utils.py", "old": '    "int64": "BigInteger",\n', "new": '    "int64": "Integer",\n'}],
+    base="C18_w3_1",
+)
+mut2(
+    "c10-import-initialiser-then-also-called-from-a-function",
+    "C10",
+    "C10.modstate",
+    [
+        {
+            "file": "cdd/compound/openapi/utils/emit_utils.py",
+            "old": "register_typ2column_type()\n",
+            "new": 'register_typ2column_type()\n\n\ndef use_text_for_int():\n    """switch the mapping of `int`"""\n    register_typ2column_type({"int": "Text"})\n',
+        }
+    ],
+    base="C18_w3_1",
+)
+mut2(
+    "c05-table-built-by-helper-then-float-is-integer",
+    "C05",
+    "C05.tables",
+    [{"file": "cdd/sqlalchemy/utils/emit_utils.py", "old": '            "float": "Float",\n', "new": '            "float": "Integer",\n'}],
+    base="C18_w3_2",
+)
+mut2(
+    "c17-delegate-helper-then-fed-from-input-mapping",
+    "C17",
+    "C17.exec",
+    [{"file": "cdd/compound/gen.py", "old": "        imports: str = _imports_from_file(imports_from_file, extra_symbols)\n", "new": "        imports: str = _imports_from_file(imports_from_file or input_mapping, extra_symbols)\n"}],
+    base="C19_w3_2",
+)
+mut2(
+    "c03-emitter-lookup-modernised-then-wrong-package",
+    "C03",
+    "C03.dispatch",
+    [{"file": "cdd/compound/exmod_utils.py", "old": "        else sanitised_emit_name\n    )\n    emitter = getattr(", "new": "        else emit_name\n    )\n    emitter = getattr("}],
+    base="C20_w3_3",
+)
